@@ -244,11 +244,11 @@ def build_recording(tier):
             # (the three sets above run the in-process Validate too: diagnostics of multi-file, multi-controller projects - C18)
             ("Pipeline_c06single.cfg", None, 10 ** 6 if thorough else 70, V0), ("Pipeline_c06grp.cfg", None, 10 ** 6 if thorough else 16, V0), ("Pipeline_c06resp.cfg", None, 10 ** 6 if thorough else 40, V0), ("Pipeline_c06sim.cfg", 700 if thorough else 20, None, V0),
             ("Pipeline_c07sim.cfg", 700 if thorough else 36, None, V0), ("Pipeline_c11rules.cfg", None, 10 ** 6, V0), ("Pipeline_c11rulesp.cfg", None, 10 ** 6, V0), ("Pipeline_c10core.cfg", None, 10 ** 6, A0), ("Pipeline_c10.cfg", None, 1000 if thorough else 24, A0), ("Pipeline_c10mask.cfg", None, 400 if thorough else 24, A0),
-            ("Pipeline_c10maskcore.cfg", None, 10 ** 6, A0), ("Pipeline_c10enf.cfg", None, 10 ** 6, A0), ("Pipeline_c10twin.cfg", None, 10 ** 6, A0),
+            ("Pipeline_c10maskcore.cfg", None, 10 ** 6, A0), ("Pipeline_c10enf.cfg", None, 10 ** 6, A0), ("Pipeline_c10twin.cfg", None, 10 ** 6, A0), ("Pipeline_c18pair.cfg", None, 10 ** 6, A0),
             ("Pipeline_c13sim.cfg", 300 if thorough else 24, None, V0 + A0),
             ("Pipeline_c14sim.cfg", 900 if thorough else 30, None, V0), ("Pipeline_c14types.cfg", None, 10 ** 6, V0), ("Pipeline_c14generics.cfg", None, 10 ** 6, V0)]
-    if len(plan) != 21:
-        raise c.Trouble("the F1 plan lists %d input sets, 21 are registered (a set was dropped by accident?)" % len(plan))
+    if len(plan) != 22:
+        raise c.Trouble("the F1 plan lists %d input sets, 22 are registered (a set was dropped by accident?)" % len(plan))
     if thorough:
         plan.append(("Pipeline_c10sim.cfg", None, 800, A0))     # every double perturbation, enumerated; a stratified sample is run
     import concurrent.futures
